@@ -103,6 +103,18 @@ def drive(recipe):
     t["lookup_reduced_again"] = _lookup(lambda: SpaceGroup.from_symmetry_operations(keep, expand_latt=sg.latt))
     if first != t["lookup_reduced"]:
         t["lookup_reduced_again"] = first if first["exc"] else dict(first, exc="FirstCallDiffers")
+    # the reduced description in the forms callers hold it: sorted (the identity need not come first), and as SHELX writes it
+    # (SYMM lines without the identity), each looked up twice from the same list object
+    if not t["lookup_reduced_again"]["exc"]:
+        ident = 16484
+        forms = [sorted(sg.reduced_symmetry_operations()),
+                 [s for s in sg.reduced_symmetry_operations() if int(s.integer_code) != ident],
+                 list(reversed(sg.reduced_symmetry_operations()))]
+        for lst in forms:
+            for _ in range(2):
+                r = _lookup(lambda: SpaceGroup.from_symmetry_operations(lst, expand_latt=sg.latt))
+                if r != t["lookup_reduced"]:
+                    t["lookup_reduced_again"] = r if r["exc"] else dict(r, exc="OtherFormDiffers")
     rng = random.Random(recipe["seed"])
     for _ in range(recipe["nperm"]):
         lst = list(sg.symmetry_operations)
